@@ -22,6 +22,20 @@ def monitor(case, o):
         num = str(signum(op["sig"]))
         sigs = [(t, a) for t, ev, a in evs if ev == "signal" and t >= op["at"] and a[1] == num]
         if not sigs:
+            # the stop signal must be delivered whenever the command is running when the control is taken: decidable from the
+            # log when this op is alone at its instant, nothing is queued or in progress before it, and a child is live then
+            T0 = op["at"]
+            alone = all(x["at"] != T0 for i, x in enumerate(ops) if i != k)
+            quiet_before = all(x["op"] in ("start", "run", "set_hook", "unset_hook", "to_wait", "stop") for x in ops[:k])
+            spawned = [(t, aa[0]) for t, ev, aa in evs if ev == "spawn" and t < T0]
+            reaped = {aa[0]: t for t, ev, aa in evs if ev == "reap"}
+            live = [c for t, c in spawned if c not in reaped or reaped[c] >= T0]
+            killed_now = {aa[0] for t, ev, aa in evs if ev == "kill" and t == T0}
+            edge = any(t == T0 and (ev == "spawn" and aa[0] not in [str(int(c) + 1) for c in live] or ev == "reap" and aa[0] not in killed_now)
+                       for t, ev, aa in evs if ev in ("reap", "spawn"))
+            if alone and quiet_before and live and not edge and not case["script"].get("signal_fail") and not any(x["op"] == "raw" for x in ops):
+                out.append(("C06_signal_immediately: a graceful control on a running command delivered no signal",
+                            f"{op['op']} at {T0} (grace {op['grace']}), live child {live}"))
             continue
         T, a = sigs[0]
         child = a[0]
@@ -60,7 +74,18 @@ class C06(C04):
     pid = "C06"
 
     def correspond(self, tier, seed, deep=False):
-        return job_check(self, "thorough" if deep else tier, seed, monitor)
+        # boundary family (always run): each graceful control alone on a running command, for every grace edge and child class
+        extra = []
+        for name in ("stop_with_signal", "restart_with_signal", "try_restart_with_signal"):
+            for grace in (0, 1, 50):
+                for child in CHILD_CLASSES:
+                    for sig in ("Terminate", "User1"):
+                        ops = [{"at": 0, "op": "start", "yield": True},
+                               {"at": 20, "op": name, "sig": sig, "grace": grace, "yield": True},
+                               {"at": 200, "op": "run", "mark": 1, "yield": True}]
+                        extra.append({"id": 0, "script": {"children": [dict(child), dict(child)], "spawn_fail": [], "signal_fail": [], "kill_fail": []},
+                                      "ops": ops, "waiters": 1, "tail": 1000})
+        return job_check(self, "thorough" if deep else tier, seed, monitor, extra)
 
 
 PROP = C06()
